@@ -105,6 +105,75 @@ pub fn c_alloc_drop_method() -> bool {
   ok
 }
 
+/// a list with `len` elements and capacity `cap`: the degraded ObjectHandle reports the allocation size (capacity based),
+/// and releases it with the allocation layout
+pub fn c_alloc_drop_list(len: usize, cap: usize) -> bool {
+  use laythe_core::verif::{RawSharedVector, VecBuilder};
+  let vals = [VALUE_NIL, Value::from(1.0)];
+  let n = len % 3;
+  let c = n + cap % 3;
+  if c == 0 { return true; }
+  let r: AllocObjResult<RawSharedVector<Value, ObjHeader>> = VecBuilder::new(&vals[..n], c).alloc();
+  let expect = make_vector_layout::<ObjHeader, Value>(c).size();
+  let ok = r.handle.size() == expect && r.size == expect && r.reference.len() == n;
+  drop(r.handle);
+  ok
+}
+
+/// an instance of a class with `k` fields: [InstanceHeader | len | Value x k]
+pub fn c_alloc_drop_instance(k: usize) -> bool {
+  use laythe_core::object::{Class, Instance};
+  let name = { let r: AllocObjResult<LyStr> = "c".alloc(); std::mem::forget(r.handle); r.reference };
+  let f1 = { let r: AllocObjResult<LyStr> = "x".alloc(); std::mem::forget(r.handle); r.reference };
+  let mut class = { let r = Class::bare(name).alloc(); std::mem::forget(r.handle); r.reference };
+  if k % 2 == 1 { class.add_field(f1); }
+  let n = class.fields();
+  let r: AllocObjResult<Instance> = class.alloc();
+  let expect = make_array_layout::<InstanceHeader, Value>(n).size();
+  let ok = r.handle.size() == expect && r.size == expect && n == k % 2;
+  drop(r.handle);
+  ok
+}
+
+/// O-20.3 the handles of the runtime's own collections report the size of their allocation (capacity based) and release it
+/// with that layout
+pub fn c_unique_vector_handle(len: usize, cap: usize) -> bool {
+  use laythe_core::managed::Header;
+  use laythe_core::verif::RawUniqueVectorHandle;
+  let vals = [1usize, 2];
+  let n = len % 3;
+  let c = n + cap % 3;
+  if c == 0 { return true; }
+  let h = RawUniqueVectorHandle::<usize, Header>::from_slice(&vals[..n], c, Header::new());
+  let ok = h.size() == make_vector_layout::<Header, usize>(c).size();
+  drop(h);
+  ok
+}
+
+pub fn c_shared_vector_handle(len: usize, cap: usize) -> bool {
+  use laythe_core::managed::Header;
+  use laythe_core::verif::RawSharedVectorHandle;
+  let vals = [1usize, 2];
+  let n = len % 3;
+  let c = n + cap % 3;
+  if c == 0 { return true; }
+  let h = RawSharedVectorHandle::<usize, Header>::from_slice(&vals[..n], c, Header::new());
+  let ok = h.size() == make_vector_layout::<Header, usize>(c).size();
+  drop(h);
+  ok
+}
+
+pub fn c_array_handle(len: usize) -> bool {
+  use laythe_core::managed::Header;
+  use laythe_core::verif::ArrayHandle;
+  let vals = [1u16, 2, 3];
+  let n = len % 4;
+  let h = ArrayHandle::<u16, Header>::from_slice(&vals[..n], Header::new());
+  let ok = h.size() == make_array_layout::<Header, u16>(n).size();
+  drop(h);
+  ok
+}
+
 #[cfg(kani)]
 mod proofs {
   use super::*;
@@ -128,6 +197,22 @@ mod proofs {
   #[kani::proof]
   #[kani::unwind(8)]
   fn o20_1_alloc_drop_tuple() { assert!(c_alloc_drop_tuple(kani::any())); }
+  #[kani::proof]
+  #[kani::unwind(8)]
+  fn o20_1_alloc_drop_list() { assert!(c_alloc_drop_list(kani::any(), kani::any())); }
+  #[kani::proof]
+  #[kani::unwind(8)]
+  fn o20_3_unique_vector_handle() { assert!(c_unique_vector_handle(kani::any(), kani::any())); }
+  #[kani::proof]
+  #[kani::unwind(8)]
+  fn o20_3_shared_vector_handle() { assert!(c_shared_vector_handle(kani::any(), kani::any())); }
+  #[kani::proof]
+  #[kani::unwind(8)]
+  fn o20_3_array_handle() { assert!(c_array_handle(kani::any())); }
+  #[kani::proof]
+  #[kani::unwind(10)]
+  fn o20_1_alloc_drop_instance() { assert!(c_alloc_drop_instance(kani::any())); }
+
   #[kani::proof]
   #[kani::unwind(4)]
   fn o20_1_alloc_drop_box() { assert!(c_alloc_drop_box()); }
